@@ -37,6 +37,10 @@ fn dir(tag: &str) -> std::path::PathBuf {
     std::fs::write(d.join("base.yml"), "base_only: 1\nprofile_wins: 1\nenv_wins: 1\nnested:\n  a: 1\n  b: 1\n  c: 1\nlist: [base1, base2]\n").unwrap();
     std::fs::write(d.join("dev.yml"), "profile_wins: 2\nenv_wins: 2\nnested:\n  b: 2\n  c: 2\nlist: [dev1]\n").unwrap();
     std::fs::write(d.join("prod.yml"), "profile_wins: 20\n").unwrap();
+    // bystanders: only `base.yml` and `<profile>.yml` are sources — not their `.yaml` twins, backups, or a `default.yml`
+    for f in ["base.yaml", "dev.yaml", "prod.yaml", "default.yml", "base.yml.bak", "dev.yml~", "local.yml"] {
+        std::fs::write(d.join(f), "base_only: 666\nprofile_wins: 666\nenv_wins: 666\nnested:\n  a: 666\n  b: 666\n  c: 666\nlist: [bystander]\n").unwrap();
+    }
     d
 }
 const DECOYS: [&str; 6] = ["PROFILE", "APP_PROFILE", "PAVEX_PROFILE", "PXPROFILE", "px_profile", "APP_ENV"];
